@@ -1,8 +1,6 @@
 /-
-Helper lemmas of `Props/Translated/Pn.lean` (`get_full_packet_number`) (they name the generated
-result records, hence the import of the generated file).
+Helper lemmas of `Props/Translated/Pn.lean` (`get_full_packet_number`) 
 -/
-import TLX.Gen.Translated.Pn
 import TLX.Lemmas.PyRt
 import TLX.Quic.PktNum
 namespace TLX.Lemmas.Translated
@@ -51,56 +49,15 @@ theorem rfcDecode_lt (W B L t : Nat) (hW : 0 < W) (ht : t < W) : rfcDecode W B L
   · omega
   · split <;> omega
 
-/-- what the function does once the A.3 value `R` is known (both directions) -/
-theorem pn_finish (srv : Bool) (pn : Bytes) (pnS pnC R : Nat) (hR : R < 256 ^ 8)
-    (hd : implDecode (2 ^ (8 * pn.length)) (2 ^ 62) (if srv then pnS else pnC) (Bytes.beNat pn) =
-      if Bytes.beNat pn > (if srv then pnS else pnC) ∧ (if srv then pnS else pnC) = 0 then Bytes.beNat pn else R) :
-    (if Int.ofNat (Bytes.beNat pn) > Int.ofNat (if srv then pnS else pnC) ∧ Int.ofNat (if srv then pnS else pnC) = 0 then
-      Res.ok pn ({ pn_server := if srv then Int.ofNat (Bytes.beNat pn) else Int.ofNat pnS,
-                   pn_client := if srv then Int.ofNat pnC else Int.ofNat (Bytes.beNat pn) } : Gen.Py.get_full_packet_number.St)
-    else
-      tryE (toBytesE (Int.ofNat R) 8)
-        (fun py_e => Res.raised py_e
-          { pn_server := if srv then (if Int.ofNat R > Int.ofNat pnS then Int.ofNat R else Int.ofNat pnS) else Int.ofNat pnS,
-            pn_client := if srv then Int.ofNat pnC else (if Int.ofNat R > Int.ofNat pnC then Int.ofNat R else Int.ofNat pnC) })
-        fun py_t => Res.ok py_t
-          { pn_server := if srv then (if Int.ofNat R > Int.ofNat pnS then Int.ofNat R else Int.ofNat pnS) else Int.ofNat pnS,
-            pn_client := if srv then Int.ofNat pnC else (if Int.ofNat R > Int.ofNat pnC then Int.ofNat R else Int.ofNat pnC) }) =
-    Res.ok
-      (if Bytes.beNat pn > (if srv then pnS else pnC) ∧ (if srv then pnS else pnC) = 0 then pn
-       else Bytes.ofNatBE 8 (implDecode (2 ^ (8 * pn.length)) (2 ^ 62) (if srv then pnS else pnC) (Bytes.beNat pn)))
-      { pn_server := if srv then Int.ofNat (implUpdate pnS (implDecode (2 ^ (8 * pn.length)) (2 ^ 62) (if srv then pnS else pnC) (Bytes.beNat pn))) else Int.ofNat pnS,
-        pn_client := if srv then Int.ofNat pnC else Int.ofNat (implUpdate pnC (implDecode (2 ^ (8 * pn.length)) (2 ^ 62) (if srv then pnS else pnC) (Bytes.beNat pn))) } := by
-  rw [hd]
-  have h8 : (8 : Int) = Int.ofNat 8 := rfl
-  rw [h8, toBytesE_nat R 8 hR, tryE_ok]
-  generalize Bytes.beNat pn = t at *
-  cases srv
-  · simp only [Bool.false_eq_true, if_false, Int.ofNat_eq_natCast, implUpdate]
-    by_cases hc : t > pnC ∧ pnC = 0
-    · obtain ⟨h1, h0⟩ := hc
-      subst h0
-      have h1' : (t : Int) > ((0 : Nat) : Int) := by omega
-      simp [h1, h1']
-    · have hc' : ¬ ((t : Int) > (pnC : Int) ∧ (pnC : Int) = 0) := by omega
-      simp only [hc, hc', if_false]
-      by_cases hr : R > pnC
-      · have hr' : (R : Int) > (pnC : Int) := by omega
-        simp only [hr, hr', if_true]
-      · have hr' : ¬ (R : Int) > (pnC : Int) := by omega
-        simp only [hr, hr', if_false]
-  · simp only [if_true, Int.ofNat_eq_natCast, implUpdate]
-    by_cases hc : t > pnS ∧ pnS = 0
-    · obtain ⟨h1, h0⟩ := hc
-      subst h0
-      have h1' : (t : Int) > ((0 : Nat) : Int) := by omega
-      simp [h1, h1']
-    · have hc' : ¬ ((t : Int) > (pnS : Int) ∧ (pnS : Int) = 0) := by omega
-      simp only [hc, hc', if_false]
-      by_cases hr : R > pnS
-      · have hr' : (R : Int) > (pnS : Int) := by omega
-        simp only [hr, hr', if_true]
-      · have hr' : ¬ (R : Int) > (pnS : Int) := by omega
-        simp only [hr, hr', if_false]
+/-- the model's value fits the 8 bytes `to_bytes` is given (entries below 2^62, windows up to 2^32) -/
+theorem implDecode_lt (n L t : Nat) (hn : 1 ≤ n ∧ n ≤ 4) (hL : L < 2 ^ 62) (ht : t < 2 ^ (8 * n)) :
+    implDecode (2 ^ (8 * n)) (2 ^ 62) L t < 256 ^ 8 := by
+  have h2 : 2 ^ (8 * n) ≤ 2 ^ 32 := Nat.pow_le_pow_right (by omega) (by omega)
+  have hp : 0 < 2 ^ (8 * n) := Nat.pow_pos (by omega)
+  have h1 := rfcDecode_lt (2 ^ (8 * n)) (2 ^ 62) L t hp ht
+  unfold implDecode
+  generalize 2 ^ (8 * n) = W at *
+  generalize rfcDecode W (2 ^ 62) L t = R at *
+  split <;> omega
 
 end TLX.Lemmas.Translated
